@@ -221,15 +221,6 @@ theorem enter_cont (k : Kind) (t : Tag) (cs : Values) (X : Bytes) :
 
 /-! ### well-formed schemas -/
 
-def _root_.TlvSchema.Fields.tags : Fields → List Nat
-  | .nil => []
-  | .cons tag _ _ _ rest => tag :: rest.tags
-  | .consSkip tag _ _ rest => tag :: rest.tags
-
-def _root_.TlvSchema.Alts.tags : Alts → List Nat
-  | .nil => []
-  | .cons tag _ rest => tag :: rest.tags
-
 mutual
 /-- every structure / payload enum (at any depth) has pairwise different context tags below 256 -/
 def _root_.TlvSchema.Ty.wf : Ty → Prop
@@ -244,22 +235,6 @@ def _root_.TlvSchema.Fields.wf : Fields → Prop
 def _root_.TlvSchema.Alts.wf : Alts → Prop
   | .nil => True
   | .cons tag ty rest => tag < 256 ∧ ty.wf ∧ rest.wf
-end
-
-mutual
-/-- executable check of `Ty.wf` -/
-def _root_.TlvSchema.Ty.wfb : Ty → Bool
-  | .struct _ fs => fs.wfb && decide fs.tags.Nodup
-  | .array _ el => el.wfb
-  | .choice alts => alts.wfb && decide alts.tags.Nodup
-  | _ => true
-def _root_.TlvSchema.Fields.wfb : Fields → Bool
-  | .nil => true
-  | .cons tag _ _ ty rest => decide (tag < 256) && ty.wfb && rest.wfb
-  | .consSkip tag ty _ rest => decide (tag < 256) && ty.wfb && rest.wfb
-def _root_.TlvSchema.Alts.wfb : Alts → Bool
-  | .nil => true
-  | .cons tag ty rest => decide (tag < 256) && ty.wfb && rest.wfb
 end
 
 mutual
@@ -1012,5 +987,82 @@ theorem struct_roundtrip (ty : Ty) (val : Val) (v : Value) (X : Bytes) (hty : ty
     (hv : toValue ty val = some v) (hl : (encode v).length + 1 < USIZE) :
     decodeStruct ty (encode v ++ X) = .ok val := by
   exact decodeVal_encode ty false .anon val v X hty trivial hv hl
+
+/-! ### the tag numbering rule of the derive macro -/
+
+/-- number of implicitly numbered fields -/
+def countNone (tvs : List (Option Nat)) : Nat := (tvs.filter Option.isNone).length
+
+theorem implicitTags_length : ∀ (s : Nat) (tvs : List (Option Nat)), (implicitTags s tvs).length = tvs.length
+  | _, [] => rfl
+  | s, some x :: r => by simp [implicitTags, implicitTags_length s r]
+  | s, none :: r => by simp [implicitTags, implicitTags_length (s + 1) r]
+
+/-- **the numbering rule, field by field**: the field after `pre` gets its `tagval` if it has one,
+otherwise `start + (number of implicitly numbered fields before it)`; explicit tags never advance the counter -/
+theorem implicitTags_split : ∀ (pre : List (Option Nat)) (s : Nat) (tv : Option Nat) (post : List (Option Nat)),
+    implicitTags s (pre ++ tv :: post) =
+      implicitTags s pre ++ tv.getD (s + countNone pre) ::
+        implicitTags (s + countNone pre + (if tv.isNone then 1 else 0)) post
+  | [], s, tv, post => by cases tv <;> simp [implicitTags, countNone]
+  | some x :: pre, s, tv, post => by
+    simp only [List.cons_append, implicitTags, implicitTags_split pre s tv post, countNone, List.filter_cons,
+      Option.isNone_some, Bool.false_eq_true, if_false]
+  | none :: pre, s, tv, post => by
+    have := implicitTags_split pre (s + 1) tv post
+    have e : s + 1 + countNone pre = s + countNone (none :: pre) := by
+      simp only [countNone, List.filter_cons, Option.isNone_none, if_true, List.length_cons]; omega
+    simp only [List.cons_append, implicitTags, this, e]
+
+theorem implicitTags_all_implicit (s n : Nat) : implicitTags s (List.replicate n none) = List.range' s n := by
+  induction n generalizing s with
+  | zero => rfl
+  | succ n ih => simp [List.replicate_succ, implicitTags, ih (s + 1), List.range'_succ]
+
+theorem mem_implicitTags : ∀ (tvs : List (Option Nat)) (s y : Nat), y ∈ implicitTags s tvs →
+    some y ∈ tvs ∨ (s ≤ y ∧ y < s + countNone tvs)
+  | [], _, _, h => by simp [implicitTags] at h
+  | some x :: r, s, y, h => by
+    simp only [implicitTags, List.mem_cons] at h
+    rcases h with rfl | h
+    · left; simp
+    · rcases mem_implicitTags r s y h with h | h
+      · left; simp [h]
+      · right; simpa [countNone] using h
+  | none :: r, s, y, h => by
+    simp only [implicitTags, List.mem_cons] at h
+    rcases h with rfl | h
+    · right; simp [countNone]
+    · rcases mem_implicitTags r (s + 1) y h with h | h
+      · left; simp [h]
+      · right; simp only [countNone, List.filter_cons, Option.isNone_none, if_true, List.length_cons] at h ⊢; omega
+
+/-- the assigned tags are pairwise different when the explicit `tagval`s are pairwise different and
+none of them falls into the range the implicit counter runs through -/
+theorem implicitTags_nodup : ∀ (tvs : List (Option Nat)) (s : Nat),
+    (tvs.filterMap id).Nodup → (∀ x, some x ∈ tvs → x < s ∨ s + countNone tvs ≤ x) →
+    (implicitTags s tvs).Nodup
+  | [], _, _, _ => by simp [implicitTags]
+  | some x :: r, s, hnd, hr => by
+    simp only [List.filterMap_cons, id, List.nodup_cons] at hnd
+    simp only [implicitTags, List.nodup_cons]
+    refine ⟨fun hin => ?_, implicitTags_nodup r s hnd.2 fun y hy => ?_⟩
+    · rcases mem_implicitTags r s x hin with h | h
+      · exact hnd.1 (List.mem_filterMap.mpr ⟨some x, h, rfl⟩)
+      · have := hr x (by simp)
+        simp only [countNone, List.filter_cons, Option.isNone_some, Bool.false_eq_true, if_false] at this
+        simp only [countNone] at h; omega
+    · have := hr y (by simp [hy])
+      simpa [countNone] using this
+  | none :: r, s, hnd, hr => by
+    simp only [List.filterMap_cons, id] at hnd
+    simp only [implicitTags, List.nodup_cons]
+    refine ⟨fun hin => ?_, implicitTags_nodup r (s + 1) hnd fun y hy => ?_⟩
+    · rcases mem_implicitTags r (s + 1) s hin with h | h
+      · have := hr s (by simp [h])
+        simp only [countNone, List.filter_cons, Option.isNone_none, if_true, List.length_cons] at this; omega
+      · omega
+    · have := hr y (by simp [hy])
+      simp only [countNone, List.filter_cons, Option.isNone_none, if_true, List.length_cons] at this ⊢; omega
 
 end Tlv
